@@ -4,7 +4,7 @@ import json, os
 import vlib
 
 SPEC = "Recency"
-KNOWN = {"CF12": "CF12"}
+KNOWN = {"CF12": "CF12", "CF12c": "CF12c"}
 # FALSE: the recency map is keyed by the key alone, as coded today (finding CF12 = named deviation `interf`).
 # TRUE : after a repair that keys the map by (kind, key): no allowance anywhere, witnesses dropped.
 # VERIF_C12_FIXED=1 selects TRUE without editing (used to test notes/c12_fix_CF12.diff with bin/mutcheck);
@@ -18,7 +18,8 @@ STRICT = "TypeOK StrictObserveExact NoInterference NeverDropUncovered DropRemove
 BIG = 100000000
 
 
-def mc_cfg(name, kinds, keys, masks, timeouts, steps, delta=0, kbk=None, inv=None, spec="Spec", mode=None):
+def mc_cfg(name, kinds, keys, masks, timeouts, steps, delta=0, kbk=None, inv=None, spec="Spec", mode=None,
+           observers=(), gen_ordered=False):
     kbk = KEY_BY_KIND if kbk is None else kbk
     if inv is None:
         inv = STRICT if kbk else INV
@@ -28,6 +29,7 @@ def mc_cfg(name, kinds, keys, masks, timeouts, steps, delta=0, kbk=None, inv=Non
         f.write(" Kinds = {%s}\n Keys = {%s}\n" % (",".join('"%s"' % k for k in kinds), ",".join(str(k) for k in keys)))
         f.write(" KeyByKind = %s\n Masks <- %s\n Timeouts <- %s\n" % ("TRUE" if kbk else "FALSE", masks, timeouts))
         f.write(" MaxDelta = %d\n MaxSteps = %d\n MaxNow = %d\n MaxGen = %d\n" % (delta, steps, BIG, BIG))
+        f.write(" GenOrderedCompare = %s\n Observers = {%s}\n" % ("TRUE" if gen_ordered else "FALSE", ",".join(str(o) for o in observers)))
         if mode:
             f.write(' Mode = "%s"\n' % mode)
         f.write("INVARIANTS %s\nCHECK_DEADLOCK FALSE\n" % inv)
@@ -126,13 +128,18 @@ def race_part(chk, env, thorough):
 
 
 def trace_cfg():
-    """TraceRecency.cfg is committed for KeyByKind = FALSE; the repaired variant is generated."""
-    if not KEY_BY_KIND:
-        return "TraceRecency.cfg"
+    """TraceRecency.cfg is committed for the current tree (KeyByKind = TRUE, strict invariants); the variant for the
+    other setting of KEY_BY_KIND is generated from it."""
     src = open(os.path.join(vlib.SPECS, SPEC, "TraceRecency.cfg")).read()
-    src = src.replace("KeyByKind = FALSE", "KeyByKind = TRUE").replace(INV, STRICT)
-    open(os.path.join(vlib.SPECS, SPEC, "gen_TraceRecency_fixed.cfg"), "w").write(src)
-    return "gen_TraceRecency_fixed.cfg"
+    committed_kbk = "KeyByKind = TRUE" in src
+    if committed_kbk == KEY_BY_KIND:
+        return "TraceRecency.cfg"
+    if KEY_BY_KIND:
+        src = src.replace("KeyByKind = FALSE", "KeyByKind = TRUE").replace(INV, STRICT)
+    else:
+        src = src.replace("KeyByKind = TRUE", "KeyByKind = FALSE").replace(STRICT, INV)
+    open(os.path.join(vlib.SPECS, SPEC, "gen_TraceRecency_alt.cfg"), "w").write(src)
+    return "gen_TraceRecency_alt.cfg"
 
 
 def run(chk):
@@ -154,7 +161,8 @@ def run(chk):
         ("two_kinds_two_keys", dict(kinds=cg, keys=[1, 2], masks="FullMask", timeouts="TO_2", steps=7)),
         ("same_key_full_mask", dict(kinds=cg, keys=[1], masks="FullMask", timeouts="TO_23", steps=8, delta=1)),
         ("same_key_all_masks", dict(kinds=cg, keys=[1], masks="AllMasks", timeouts="TO_n23", steps=7, delta=1)),
-        ("repaired_per_kind_entries", dict(kinds=cg, keys=[1, 2], masks="FullMask", timeouts="TO_2", steps=7, kbk=True)),
+        # one extra exporter whose observation overlaps (snapshot now, should_store later), registry-side removals
+        ("overlapping_observer", dict(kinds=["c"], keys=[1], masks="FullMask", timeouts="TO_2", steps=9, delta=1, observers=[1])),
         ("single_kind_strict", dict(kinds=["c"], keys=[1, 2], masks="AllMasks", timeouts="TO_n23", steps=7, delta=1, inv=STRICT)),
     ]
     if thorough:
@@ -166,6 +174,10 @@ def run(chk):
             ("three_kinds_same_key", dict(kinds=["c", "g", "h"], keys=[1], masks="AllMasks", timeouts="TO_n23", steps=8, delta=1)),
             ("repaired_all_masks", dict(kinds=cg, keys=[1, 2], masks="AllMasks", timeouts="TO_n23", steps=7, delta=1, kbk=True)),
         ]
+    if not KEY_BY_KIND:
+        cfgs.append(("repaired_per_kind_entries", dict(kinds=cg, keys=[1, 2], masks="FullMask", timeouts="TO_2", steps=7, kbk=True)))
+    if thorough:
+        cfgs.append(("overlapping_observers_2kinds", dict(kinds=cg, keys=[1], masks="FullMask", timeouts="TO_2", steps=8, observers=[1])))
     for name, kw in cfgs:
         cfg = mc_cfg(name, **kw)
         r = vlib.tlc_mc(SPEC, "MCRecency", cfg, workers=8, timeout=3000 if thorough else 600, tag=name)
@@ -209,7 +221,8 @@ def run(chk):
         nb += len(behs)
         chk.notes["enumerated_timelines"] = len(behs)
         # (b) random walks of the specification over larger scopes
-        sims = [("sim_direct_cg", dict(kinds=cg, keys=[1, 2], masks="FullMask", timeouts="TO_23", steps=14), "direct"),
+        sims = [("sim_direct_cg", dict(kinds=cg, keys=[1, 2], masks="FullMask", timeouts="TO_23", steps=14, observers=[1]), "direct"),
+                ("sim_direct_c_overlap", dict(kinds=["c"], keys=[1], masks="FullMask", timeouts="TO_2", steps=16, delta=1, observers=[1, 2]), "direct"),
                 ("sim_direct_cgh", dict(kinds=["c", "g", "h"], keys=[1, 2], masks="AllMasks", timeouts="TO_n23", steps=12, delta=1), "direct"),
                 ("sim_prom", dict(kinds=["c", "g", "h"], keys=[1, 2], masks="AllMasks", timeouts="TO_n23", steps=12, delta=1), "prom")]
         for name, kw, mode in sims:
@@ -228,6 +241,21 @@ def run(chk):
                                            "timeout": behs[0]["timeout"], "ops": behs[0]["ops"]})
         # (c) witnesses of CF12: TLC counterexamples to the property WITHOUT the allowance, replayed on the
         #     real code; the KNOWN-FINDING line is printed only if the real code really still does it
+        # CF12c (stale entry, equal generation): TLC counterexample to the property with no allowance, replayed on the
+        # real code; and the comparison `gen > last_gen` (GenOrderedCompare) must be rejected by TLC even WITH the
+        # CF12c allowance -- its counterexample (fresh series with fewer updates than the stale entry) is replayed too:
+        # the real code must keep that series.
+        for name, inv, go in [("wit_cf12c", "NoStaleObserveExact", False), ("wit_gen_ordered", STRICT if KEY_BY_KIND else INV, True)]:
+            cfg = mc_cfg(name, kinds=["c"], keys=[1], masks="FullMask", timeouts="TO_2", steps=9, delta=1,
+                         spec="SimSpec", inv=inv, mode="direct", gen_ordered=go)
+            r = vlib.tlc_mc(SPEC, "MCSimRecency", cfg, workers=4, timeout=600, coverage=False, tag=name)
+            hist = vlib.last_state_var(r["out"], "hist")
+            want = ("NoStaleObserveExact",) if not go else ("StrictObserveExact", "ObserveExact")
+            if r["invariant"] not in want or not hist:
+                chk.tool_error("no TLC witness for %s (invariant=%s)" % (name, r["invariant"]), r["out"][-2000:])
+            f.write(json.dumps({"mode": "direct", "mask": ["c"], "timeout": 2, "ops": hist}) + "\n")
+            nb += 1
+            chk.notes[name] = {"violates": r["invariant"], "depth": r["depth"], "ops": hist}
         if not KEY_BY_KIND:
             for name, mode in [("wit_cf12_direct", "direct"), ("wit_cf12_prom", "prom")]:
                 cfg = mc_cfg(name, kinds=cg, keys=[1], masks="FullMask", timeouts="TO_2", steps=8, delta=1,
@@ -250,6 +278,8 @@ def run(chk):
     chk.log("replay: %s" % json.dumps(summ2))
     if summ2.get("diverged", 0):
         chk.log("observations whose result differs from the specification's:", summ2["diverged"])
+    if "CF12c" not in chk.known_printed and chk.violations == 0:
+        chk.tool_error("CF12c witness did not reproduce on the real code although the traces were accepted")
     if not KEY_BY_KIND and "CF12" not in chk.known_printed and chk.violations == 0:
         # the witnesses were replayed and accepted, yet no observation deviated: the code no longer shares entries
         chk.tool_error("CF12 witness did not reproduce on the real code although the traces were accepted")
@@ -301,7 +331,7 @@ def _trace_to_programs(path, out):
                 cur["ops"].append(["ustep2", e["u"]])
             elif ev == "o.gen":
                 cur["ops"].append(["ogen"])
-            elif ev == "o.decide":
+            elif ev == "o.decide" and "ob" not in e:
                 cur["ops"].append(["odecide"])
             elif ev == "o.val":
                 cur["ops"].append(["oval"])
@@ -317,6 +347,14 @@ def _trace_to_programs(path, out):
                 cur["ops"].append(["render"])
             elif ev == "snap":
                 cur["ops"].append(["snap"])
+            elif ev == "remove":
+                cur["ops"].append(["remove", e["kind"], e["key"]])
+            elif ev == "clear":
+                cur["ops"].append(["clear"])
+            elif ev == "o.snap":
+                cur["ops"].append(["osnap", e["ob"], e["kind"], e["key"]])
+            elif ev == "o.decide" and "ob" in e:
+                cur["ops"].append(["odecide", e["ob"]])
         flush()
     return n
 
